@@ -2,7 +2,7 @@
 import time
 from vp.runner import REPO
 from vp import atomic_map
-from props.shared import mu_groups, mu_lemmas, sem_groups, once_groups
+from props.shared import mu_groups, mu_lemmas, sem_groups, once_groups, cv_groups, cnt_groups
 
 ID = "C03"
 LEVEL = "other"
@@ -13,7 +13,8 @@ EXPLANATION = (
     "spinlock must be >= acquire, one that releases either must be >= release (plain stores included), both => acq_rel; a queued waiter "
     "re-acquires only after an ACQUIRE load observed its wake-up (tagged loop-invariant clause in nsync_mu_lock_slow_, hook obligation "
     "elsewhere); once: claiming CAS is acquire, the store of 2 is release, a call returns only after an acquire load returned 2 or its "
-    "own store; semaphore: V's increment is release, P's decrement is acquire. Textual obligation: platform/gcc_new, c11 and c++11 "
+    "own store; counter: the value CAS is acq_rel, the loads that publish the value are acquire; cv: taking the cv spinlock is an acquire, "
+    "releasing it a release; wakers (wake_waiters, nsync_counter_add) clear a waiter's flag with release order before posting; semaphore: V's increment is release, P's decrement is acquire. Textual obligation: platform/gcc_new, c11 and c++11 "
     "atomic.h map every ATM_* suffix to a memory order at least as strong as its name (eight macro bodies and four helpers per header). "
     "Only orders that an edge named in the statement needs are demanded. PAPER ARGUMENT (not mechanised): with those orders every "
     "acquiring read reads from the releasing write or from a later RMW of its release sequence, hence synchronises-with it under "
@@ -23,14 +24,15 @@ LEVEL_TEXT = ("per-step order obligations are proved by CBMC contracts on the re
 ASSUMPTIONS = ["the C11/C++20 axiomatic memory model itself is not mechanised: release-sequence / synchronises-with argument on paper",
                "atomic steps are modelled as sequentially consistent for the functional part of the proofs"]
 NOT_DECIDED = ["races on nsync's own non-atomic fields (queue links), compiler reordering",
-               "waker-side stores of waiting=0 in nsync_mu_unlock_slow_, wake_waiters, note_notify_child, nsync_counter_add (groups not yet under contract in this revision)"]
+               "waker-side stores of waiting=0 in nsync_mu_unlock_slow_ and note_notify_child (groups not yet under contract in this revision); "
+               "wake_waiters and nsync_counter_add ARE checked (release order of the flag store, flag before post)"]
 TRUSTED = ["regular-expression reading of the three platform atomic.h headers (vp/atomic_map.py)"]
 PARALLEL = 12
 
 
 def groups(tier):
     t = ["C03"]
-    return mu_groups(tags=t) + mu_lemmas(tags=t) + sem_groups(tags=t) + once_groups(tags=t)
+    return mu_groups(tags=t) + mu_lemmas(tags=t) + sem_groups(tags=t) + once_groups(tags=t) + cv_groups(tags=t) + cnt_groups(tags=t)
 
 
 def extra_checks(tier):
